@@ -56,10 +56,18 @@ type ptsEngine struct {
 	Visited int
 	cmemo   map[contentKey]map[memObj]bool
 	cactive map[contentKey]bool
+	round    int
+	changed  bool
+	ptsRound map[ptsKey]int
+	cRound   map[contentKey]int
+	fbRound  map[fbKey]int
+	fidx     *fieldStoreIndex
+	fbMemo   map[fbKey]map[memObj]bool
+	fbActive map[fbKey]bool
 }
 
 func newPtsEngine(m *Module, visit func(ssa.Value)) *ptsEngine {
-	return &ptsEngine{m: m, visit: visit, memo: map[ptsKey]map[memObj]bool{}, active: map[ptsKey]bool{}, ctxs: map[ptsKey]*ptsCtx{}, maxCtx: 8, cmemo: map[contentKey]map[memObj]bool{}, cactive: map[contentKey]bool{}}
+	return &ptsEngine{m: m, visit: visit, memo: map[ptsKey]map[memObj]bool{}, active: map[ptsKey]bool{}, ctxs: map[ptsKey]*ptsCtx{}, maxCtx: 8, cmemo: map[contentKey]map[memObj]bool{}, cactive: map[contentKey]bool{}, fbMemo: map[fbKey]map[memObj]bool{}, fbActive: map[fbKey]bool{}, round: 1, ptsRound: map[ptsKey]int{}, cRound: map[contentKey]int{}, fbRound: map[fbKey]int{}}
 }
 
 func (e *ptsEngine) push(site ssa.CallInstruction, up *ptsCtx) *ptsCtx {
@@ -126,34 +134,51 @@ var libReturnsArg = map[string]bool{
 	"bytes.TrimSpace": true, "bytes.Trim": true, "bytes.TrimPrefix": true, "bytes.TrimSuffix": true,
 }
 
+// query evaluates pts to a fixed point: results are monotone facts kept in the memo tables across
+// rounds and across queries; a cycle met during a round uses the value known so far, and the round is
+// repeated until no table entry grew.
+func (e *ptsEngine) query(v ssa.Value) map[memObj]bool {
+	var res map[memObj]bool
+	for i := 0; i < 25; i++ {
+		e.round++
+		e.changed = false
+		res = e.pts(v, nil)
+		if !e.changed {
+			break
+		}
+	}
+	return res
+}
+
+func sameObjSet(a, b map[memObj]bool) bool { return len(a) == len(b) }
+
 func (e *ptsEngine) pts(v ssa.Value, ctx *ptsCtx) map[memObj]bool {
 	if v == nil {
 		return nil
 	}
 	k := ptsKey{v, ctx}
-	if r, ok := e.memo[k]; ok {
-		return r
-	}
-	if e.active[k] {
-		e.cuts++
-		return nil
+	if e.ptsRound[k] == e.round || e.active[k] {
+		// evaluated in this round already, or in progress (cycle): the value known so far
+		return e.memo[k]
 	}
 	e.active[k] = true
 	e.Visited++
 	if e.visit != nil {
 		e.visit(v)
 	}
-	before := e.cuts
 	res := e.eval(v, ctx)
 	if e.mark != nil && e.mark(v) {
 		res = union(res, map[memObj]bool{{v: v, mark: true}: true})
 	}
 	delete(e.active, k)
-	// a result computed while a cycle was cut below it is only a lower bound for inner nodes
-	if e.cuts == before || len(e.active) == 0 {
-		e.memo[k] = res
+	old := e.memo[k]
+	merged := union(union(nil, old), res)
+	if len(merged) != len(old) {
+		e.changed = true
 	}
-	return res
+	e.memo[k] = merged
+	e.ptsRound[k] = e.round
+	return merged
 }
 
 func (e *ptsEngine) eval(v ssa.Value, ctx *ptsCtx) map[memObj]bool {
@@ -393,7 +418,141 @@ func (e *ptsEngine) loadFrom(addr, _ ssa.Value, ctx *ptsCtx, fn *ssa.Function) m
 	if _, isAlloc := base.(*ssa.Alloc); !isAlloc {
 		res = union(res, e.storedThrough(base, -1, ctx))
 	}
+	// field-based fallback: when the object is opaque (a parameter without a caller, a global, a
+	// library result, marked memory) its field may hold whatever any function of the module ever
+	// stored into that field of that struct type; likewise for the elements of a container that was
+	// loaded from such a field
+	opaque := false
+	for o := range objs {
+		if isOpaqueObj(o) {
+			opaque = true
+		}
+	}
+	if opaque {
+		if fa, ok := addr.(*ssa.FieldAddr); ok {
+			res = union(res, e.fieldBased(fieldKeyOf(fa), false))
+		} else {
+			// element / map value read out of a container that was itself loaded from a field
+			cont := addr
+			if ia, ok := addr.(*ssa.IndexAddr); ok {
+				cont = ia.X
+			}
+			if u, ok := cont.(*ssa.UnOp); ok && u.Op == token.MUL {
+				if fa, ok := u.X.(*ssa.FieldAddr); ok {
+					res = union(res, e.fieldBased(fieldKeyOf(fa), true))
+				}
+			}
+		}
+	}
 	return res
+}
+
+func isOpaqueObj(o memObj) bool {
+	if o.mark {
+		return true
+	}
+	switch x := o.v.(type) {
+	case *ssa.Parameter, *ssa.Global, *ssa.FreeVar:
+		return true
+	case *ssa.Call:
+		if bi, ok := x.Call.Value.(*ssa.Builtin); ok && bi.Name() == "append" {
+			return false
+		}
+		return true
+	}
+	return false
+}
+
+type fieldKey struct {
+	typ   string
+	field int
+}
+
+func fieldKeyOf(fa *ssa.FieldAddr) fieldKey {
+	t := fa.X.Type()
+	if p, ok := t.Underlying().(*types.Pointer); ok {
+		t = p.Elem()
+	}
+	return fieldKey{t.String(), fa.Field}
+}
+
+type fieldStoreIndex struct {
+	direct map[fieldKey][]ssa.Value // values stored into the field itself
+	elems  map[fieldKey][]ssa.Value // values stored into a map / slice that was loaded from the field
+}
+
+func (e *ptsEngine) buildFieldIndex() {
+	idx := &fieldStoreIndex{direct: map[fieldKey][]ssa.Value{}, elems: map[fieldKey][]ssa.Value{}}
+	contKey := func(v ssa.Value) (fieldKey, bool) {
+		if u, ok := v.(*ssa.UnOp); ok && u.Op == token.MUL {
+			if fa, ok := u.X.(*ssa.FieldAddr); ok {
+				return fieldKeyOf(fa), true
+			}
+		}
+		return fieldKey{}, false
+	}
+	for _, fn := range e.m.AllFuncs {
+		for _, b := range fn.Blocks {
+			for _, in := range b.Instrs {
+				switch x := in.(type) {
+				case *ssa.Store:
+					if !refCarrying(x.Val.Type()) {
+						continue
+					}
+					switch a := x.Addr.(type) {
+					case *ssa.FieldAddr:
+						k := fieldKeyOf(a)
+						idx.direct[k] = append(idx.direct[k], x.Val)
+					case *ssa.IndexAddr:
+						if k, ok := contKey(a.X); ok {
+							idx.elems[k] = append(idx.elems[k], x.Val)
+						}
+					}
+				case *ssa.MapUpdate:
+					if k, ok := contKey(x.Map); ok {
+						if refCarrying(x.Value.Type()) {
+							idx.elems[k] = append(idx.elems[k], x.Value)
+						}
+					}
+				}
+			}
+		}
+	}
+	e.fidx = idx
+}
+
+// fieldBased: pts of everything the module stores into field k (or into the container held there).
+func (e *ptsEngine) fieldBased(k fieldKey, elems bool) map[memObj]bool {
+	if e.fidx == nil {
+		e.buildFieldIndex()
+	}
+	mk := fbKey{k, elems}
+	if e.fbRound[mk] == e.round || e.fbActive[mk] {
+		return e.fbMemo[mk]
+	}
+	e.fbActive[mk] = true
+	var res map[memObj]bool
+	vals := e.fidx.direct[k]
+	if elems {
+		vals = e.fidx.elems[k]
+	}
+	for _, v := range vals {
+		res = union(res, e.pts(v, nil))
+	}
+	delete(e.fbActive, mk)
+	old := e.fbMemo[mk]
+	merged := union(union(nil, old), res)
+	if len(merged) != len(old) {
+		e.changed = true
+	}
+	e.fbMemo[mk] = merged
+	e.fbRound[mk] = e.round
+	return merged
+}
+
+type fbKey struct {
+	k     fieldKey
+	elems bool
 }
 
 // aliasClosure: values in the same function that denote (parts of) the same memory as v.
@@ -522,15 +681,10 @@ func (e *ptsEngine) content(o memObj, field int) map[memObj]bool {
 		return map[memObj]bool{o: true}
 	}
 	k := contentKey{o, field}
-	if r, ok := e.cmemo[k]; ok {
-		return r
-	}
-	if e.cactive[k] {
-		e.cuts++
-		return nil
+	if e.cRound[k] == e.round || e.cactive[k] {
+		return e.cmemo[k]
 	}
 	e.cactive[k] = true
-	before := e.cuts
 	var res map[memObj]bool
 	switch x := o.v.(type) {
 	case *ssa.Alloc, *ssa.MakeSlice, *ssa.MakeMap, *ssa.MakeChan:
@@ -550,10 +704,14 @@ func (e *ptsEngine) content(o memObj, field int) map[memObj]bool {
 		res = map[memObj]bool{o: true}
 	}
 	delete(e.cactive, k)
-	if e.cuts == before || (len(e.cactive) == 0 && len(e.active) == 0) {
-		e.cmemo[k] = res
+	old := e.cmemo[k]
+	merged := union(union(nil, old), res)
+	if len(merged) != len(old) {
+		e.changed = true
 	}
-	return res
+	e.cmemo[k] = merged
+	e.cRound[k] = e.round
+	return merged
 }
 
 type contentKey struct {
@@ -674,7 +832,7 @@ func judgeRefSites(m *Module, eng *ptsEngine, reach map[*ssa.Function]reachInfo,
 	judge := func(ref ssa.Value) judged {
 		var j judged
 		seenH := map[string]bool{}
-		for o := range eng.pts(ref, nil) {
+		for o := range eng.query(ref) {
 			if o.mark {
 				if w := markName(o.v); w != "" && !seenH[w] {
 					seenH[w] = true
